@@ -1655,7 +1655,7 @@ fn part_e2e(o: &mut Outcome, rng: &mut Rng, thorough: bool) {
                         o.count("e2e:skipped (comment line between declarations under group_imports=Preserve: probe C10-cmt-first)");
                         continue;
                     }
-                    if !safe[pi][if c.e2018() { 1 } else { 0 }][g] {
+                    if !safe[pi][if c.e2018() { 1 } else { 0 }][g] && std::env::var("C10_NOGUARD").is_err() {
                         o.count(&format!("e2e:skipped (hypothesis of run_leaves_partial false for {})", GNAMES[g]));
                         continue;
                     }
@@ -1741,6 +1741,9 @@ fn judge(o: &mut Outcome, progs: &[(String, &Analysed)], meta: &[(usize, HCfg)],
             }
             if lin != lout {
                 verdicts[k] = false;
+                if std::env::var("C10_DEBUG").is_ok() {
+                    eprintln!("LEAVES\t{}\t{}\t{}\t{}\t{}", c.text(), lin, lout, enc_str(src), enc_str(&res[k].out));
+                }
             }
             o.count(&format!("{}:segment leaves={}", fam, if lin == "_" { 0 } else { lin.matches('|').count() + 1 }.min(12)));
             // the model computes the denotation of the output; the passing answer is the denotation of the input
@@ -1773,6 +1776,103 @@ fn judge(o: &mut Outcome, progs: &[(String, &Analysed)], meta: &[(usize, HCfg)],
     verdicts
 }
 
+// ------------------------------------------------------------------ 4. probes
+
+/// The oracle of `judge` on one (input, output) pair, evaluated at once: `Err(why)` when the
+/// output does not import what the input imports.
+fn verdict(src: &str, out: &str, e2015: bool) -> Result<(), String> {
+    let a = analyse(src).map_err(|e| format!("harness parser on the input: {}", e))?;
+    let b = analyse(out).map_err(|e| format!("the output is not a sequence of items the harness parser reads (not Rust?): {}", e))?;
+    if a.others != b.others {
+        return Err("the items that are not reorderable imports changed".into());
+    }
+    let mut reqs = vec![];
+    for sgm in a.segs.iter().chain(b.segs.iter()) {
+        reqs.push(format!("imp.leaves {}", litems(&sgm.iter().map(|u| item_of_puse(u, e2015)).collect::<Vec<_>>())));
+    }
+    let commented: Vec<&PUse> = a.segs.iter().flatten().filter(|u| !u.comments.is_empty()).collect();
+    let mut holders = vec![];
+    for u in &commented {
+        reqs.push(format!("imp.leaves {}", litem(&item_of_puse(u, e2015))));
+        for tag in tags(u) {
+            let h: Vec<&PUse> = b.segs.iter().flatten().filter(|x| tags(x).contains(&tag)).collect();
+            if h.len() == 1 {
+                holders.push((tag, reqs.len() - 1, reqs.len() + holders.len()));
+            }
+        }
+    }
+    let base = reqs.len();
+    for u in &commented {
+        for tag in tags(u) {
+            let h: Vec<&PUse> = b.segs.iter().flatten().filter(|x| tags(x).contains(&tag)).collect();
+            if h.len() == 1 {
+                reqs.push(format!("imp.leaves {}", litem(&item_of_puse(h[0], e2015))));
+            }
+        }
+    }
+    let ans = run_model(&reqs, 1);
+    let n = a.segs.len();
+    for k in 0..n {
+        if ans[k] != ans[n + k] {
+            return Err(format!("segment {}: input denotes {} , output denotes {}", k, ans[k], ans[n + k]));
+        }
+    }
+    for (j, (tag, win, _)) in holders.iter().enumerate() {
+        if ans[*win] != "_" && ans[*win] != ans[base + j] {
+            return Err(format!("the declaration that carries comment `{}` denotes {} in the input and {} in the output", tag, ans[*win], ans[base + j]));
+        }
+    }
+    Ok(())
+}
+
+struct Probe {
+    id: &'static str,
+    src: &'static str,
+    cfg: &'static [(&'static str, &'static str)],
+    what: &'static str,
+    /// also a failure: this text is gone from the output
+    must_keep: Option<&'static str>,
+}
+
+const PROBES: &[Probe] = &[
+    Probe { id: "F6-module", src: "use a;\nuse a as x;\n", cfg: &[("imports_granularity", "Module")], must_keep: None, what: "imports_granularity=Module: `use a; use a as x;` becomes `use a;`: the import `a as x` is lost (merge_rest returns None when both paths are exhausted by the alias-blind first segment; proved: alias_twin_counterexample)" },
+    Probe { id: "F6-one", src: "use a;\nuse a as x;\n", cfg: &[("imports_granularity", "One")], must_keep: None, what: "imports_granularity=One: `use a; use a as x;` becomes `use a;` (alias_twin_counterexample)" },
+    Probe { id: "F6-module-aliases", src: "use a as x;\nuse a as y;\n", cfg: &[("imports_granularity", "Module")], must_keep: None, what: "imports_granularity=Module: `use a as x; use a as y;` loses `a as y`" },
+    Probe { id: "F6-module-root", src: "use ::a;\nuse ::a as x;\n", cfg: &[("imports_granularity", "Module"), ("edition", "2018")], must_keep: None, what: "imports_granularity=Module, edition >= 2018: `use ::a; use ::a as x;` loses `::a as x` (`::a` is one segment)" },
+    Probe { id: "F6-one-nested", src: "use b::{c, d};\nuse b::c as p;\n", cfg: &[("imports_granularity", "One")], must_keep: None, what: "imports_granularity=One: `use b::{c, d}; use b::c as p;` becomes `use b::{c, d};` (merge_use_trees_inner picks `c` as most similar to `c as p` and merge drops it; proved: alias_twin_nested_counterexample)" },
+    Probe { id: "F6-one-single", src: "use a::{b, b as x, b as y};\n", cfg: &[("imports_granularity", "One")], must_keep: None, what: "imports_granularity=One: the single declaration `use a::{b, b as x, b as y};` loses `a::b as y` when it is flattened and merged again" },
+    Probe { id: "F6-one-stem", src: "use a::b;\nuse a as x;\n", cfg: &[("imports_granularity", "One")], must_keep: None, what: "imports_granularity=One: `use a::b; use a as x;` becomes `use a as x::{self as x, b};`, which is not Rust (merge_rest takes the head segment from the aliased tree; proved: alias_stem_counterexample)" },
+    Probe { id: "C10-item-attrs", src: "#[cfg(unix)]\nuse f::B;\n#[cfg(windows)]\nuse f::B;\n", cfg: &[("imports_granularity", "Item")], must_keep: None, what: "imports_granularity=Item: `#[cfg(unix)] use f::B; #[cfg(windows)] use f::B;` loses the second declaration: unique() compares paths only (proved: granularity_item_counterexample)" },
+    Probe { id: "C10-item-vis", src: "pub use p::q;\nuse p::q;\n", cfg: &[("imports_granularity", "Item")], must_keep: None, what: "imports_granularity=Item: `pub use p::q; use p::q;` loses the private import (unique() compares paths only)" },
+    Probe { id: "C10-item-dup-comment", src: "use b::c;\nuse b::c; // why\nuse d;\n", cfg: &[("imports_granularity", "Item")], must_keep: Some("why"), what: "imports_granularity=Item: a duplicate import that carries a comment is removed together with its comment (unique() compares paths only)" },
+    Probe { id: "C10-empty-nested-item", src: "use a::{b::{}, c};\n", cfg: &[("imports_granularity", "Item")], must_keep: None, what: "imports_granularity=Item: `use a::{b::{}, c};` becomes `use a; use a::c;`: an import of `a` nobody wrote (normalize leaves a nested tree with an empty path, flatten turns it into the prefix; proved: flatten_empty_nested_counterexample)" },
+    Probe { id: "C10-empty-nested-crate", src: "use a::{b::{}, c};\nuse a::d;\n", cfg: &[("imports_granularity", "Crate")], must_keep: None, what: "imports_granularity=Crate: `use a::{b::{}, c}; use a::d;` becomes `use a::{self, c, d};`: an import of `a` nobody wrote" },
+    Probe { id: "C10-bare-self", src: "use self;\nuse a;\n", cfg: &[], must_keep: None, what: "`use self;` (accepted by the parser, rejected by rustc) is deleted by normalize (proved: normalize_bare_self_counterexample)" },
+    Probe { id: "C10-cmt-first", src: "use a::b;\n// about c\nuse a::c;\nuse a::d;\n", cfg: &[("imports_granularity", "Crate")], must_keep: None, what: "group_imports=Preserve: a comment line above a declaration ends the run, so the comment lies outside the span of the next run and is not attached: `// about c / use a::c; / use a::d;` is merged into `// about c / use a::{c, d};` across the comment" },
+    Probe { id: "C10-cmt-last", src: "use a::b;\nuse a::c; // about c\n", cfg: &[("imports_granularity", "Crate")], must_keep: None, what: "a trailing comment on the last declaration of a run lies outside the span of the run and is not attached: `use a::b; / use a::c; // about c` is merged into `use a::{b, c}; // about c`" },
+];
+
+fn part_probes(o: &mut Outcome) {
+    let jobs: Vec<Job> = PROBES.iter().map(|p| Job { src: p.src.to_string(), cfg: p.cfg.iter().map(|(k, v)| (k.to_string(), v.to_string())).collect(), file_lines: None }).collect();
+    let res = pool::run_jobs(&jobs, crate::util::jobs(), Duration::from_secs(20));
+    for (p, r) in PROBES.iter().zip(res.iter()) {
+        let e2015 = !p.cfg.iter().any(|(k, v)| *k == "edition" && *v != "2015");
+        let (fails, detail) = match &r.status {
+            Status::Ok => match verdict(p.src, &r.out, e2015) {
+                Err(why) => (true, why),
+                Ok(()) => match p.must_keep {
+                    Some(t) if !r.out.contains(t) => (true, format!("`{}` is gone from the output", t)),
+                    _ => (false, "the output imports what the input imports".to_string()),
+                },
+            },
+            s => (false, format!("not formatted: {:?}", s)),
+        };
+        o.direct_evals += 1;
+        o.direct_distinct += 1;
+        o.probes.push(json!({"id": p.id, "fails": fails, "what": p.what, "detail": {"src": p.src, "cfg": p.cfg.iter().map(|(k, v)| format!("{}={}", k, v)).collect::<Vec<_>>().join(","), "out": r.out, "why": detail}}));
+    }
+}
+
 pub fn run(tier: &str, seed: u64, out: &Path) -> i32 {
     pool::install_panic_hook();
     let mut o = Outcome::new("C10", tier, seed);
@@ -1789,6 +1889,9 @@ pub fn run(tier: &str, seed: u64, out: &Path) -> i32 {
     }
     if on("e2e") {
         part_e2e(&mut o, &mut r3, thorough);
+    }
+    if on("probes") {
+        part_probes(&mut o);
     }
     o.finish(out, crate::util::jobs())
 }
